@@ -3,17 +3,8 @@
 (* denotation - checked for every program of the generator on a reference    *)
 (* world, every assignment.  (So a difference between the rows of a query    *)
 (* and of its rewritten twin on the real library is the library's.)          *)
-EXTENDS GenQuery, EQLSem
+EXTENDS GenQuery, EQLSem, RefWorld
 
-O(n, m, s, items, t, o, ref, refs) ==
-  [cls |-> "A", f |-> [n |-> IntV(n), m |-> IntV(m), s |-> [t |-> "str", v |-> s],
-                        items |-> ListV([j \in 1..Len(items) |-> IntV(items[j])]),
-                        t |-> [t |-> "tuple", v |-> [j \in 1..Len(t) |-> IntV(t[j])]],
-                        o |-> o, ref |-> ObjV(ref), refs |-> ListV([j \in 1..Len(refs) |-> ObjV(refs[j])])]]
-RefW == [objs |-> << O(0, 1, <<>>, <<>>, <<0, 1>>, NoneV, 2, <<>>),
-                     O(1, 1, <<1>>, <<0>>, <<1, 0>>, IntV(0), 3, <<1>>),
-                     O(2, 0, <<1, 2>>, <<1, 2>>, <<2, 2>>, IntV(1), 1, <<2, 3>>),
-                     O(1, 2, <<2>>, <<0, 1>>, <<0, 0>>, NoneV, 4, <<4, 1>>) >>]
 RefQ(p, cond) == [vars |-> [j \in 1..NV |-> [cls |-> "A", dom |-> <<1, 2, 3, 4>>]], flats |-> <<>>, bound |-> <<>>,
                   desc |-> p.desc, sel |-> p.sel, cond |-> cond]
 SameMeaning(p, c2) ==
